@@ -5,7 +5,8 @@ TLC design level : HttpWire.tla — Wire(c), the request that must arrive for an
                    walked over the complete case space with the precedence rules as invariants,
                    3 negative controls (config_wins = pandora before the fix, host_target, opt_always);
                    HttpConn.tla — per-instance clients / keep-alive state machine over the server's
-                   ConnState alphabet, exhaustive, 1 negative control (client silently drops connections).
+                   ConnState alphabet (incl. idle gaps and failed exchanges), exhaustive, 2 negative controls
+                   (client silently drops connections; drops them during an idle gap).
 M2 (spec->code)  : HttpWireGen.tla writes the complete case space; `vdrive httpwire -mode cases` renders
                    each case into an ammo file + provider/gun config, fires it through the REAL provider
                    and the REAL http gun (registered factories, config decoding) at an in-process
@@ -15,6 +16,7 @@ M1 (code->spec)  : `vdrive httpwire -mode conn`: N=1..4 instances x R requests, 
                    http/https; the target's ConnState log is replayed through HttpConn's effects by
                    TraceHttpConn.tla, every invariant after every event.
 """
+import concurrent.futures
 import json
 import os
 import re
@@ -55,12 +57,19 @@ def _violations_by_line(tr):
 
 
 def _case_class(c):
+    if "entries" in c:   # multi-entry file case
+        redef = any(h["n"].lower() in {g["n"].lower() for e0 in c["entries"][:i] for g in e0["hl"]}
+                    for i, e in enumerate(c["entries"]) for h in e["hl"])
+        return "file fmt=%s entries=%d opts=%s preload=%s redefines=%s" % (
+            c["fmt"], len(c["entries"]), "yes" if c["opts"] else "no", c["preload"], "yes" if redef else "no")
+    empty = any(h["v"].strip() == "" for h in c["ehdr"])
     en = sorted(h["n"].lower() for h in c["ehdr"])
     on = sorted(o["n"].lower() for o in c["opts"])
     overlap = sorted(set(en) & set(on))
     uriclass = "rfc" if re.fullmatch(r"[A-Za-z0-9\-._~!$&'()*+,;=:@/?%]*", c["uri"]) else "nonrfc"
-    return "fmt=%s host=%s opthost=%s overlap=%s uri=%s" % (c["fmt"], "ammo" if c["host"] else "none",
-                                                            "yes" if "host" in on else "no", ",".join(overlap) or "-", uriclass)
+    return "fmt=%s host=%s opthost=%s overlap=%s%s uri=%s" % (c["fmt"], "ammo" if c["host"] else "none",
+                                                              "yes" if "host" in on else "no", ",".join(overlap) or "-",
+                                                              "(empty-valued)" if empty else "", uriclass)
 
 
 def validate_cases(v, obs_path, cfg, timeout=900):
@@ -74,9 +83,19 @@ def validate_cases(v, obs_path, cfg, timeout=900):
         row = rows[ln - 1]
         c = row["c"]
         keep = k < 40        # replay files for the first violations only (a broad regression breaks thousands of cases)
+        if "entries" in c:
+            k = row["k"]
+            v.violation("wire %s inv=%s" % (_case_class(c), inv),
+                        "file case %d (%s, %d entries, preload=%s, headers option %s), entry %d %s: target saw %s (err=%r, provider handed out %d) — "
+                        "rule %s of HttpWire.tla fails for EntryCase(file, %d); ammo file %r" % (
+                            row["id"], c["fmt"], len(c["entries"]), c["preload"], c["opts"], k, c["entries"][k - 1], row["obs"], row["err"],
+                            row["acq"], inv, k, row["file"]),
+                        replay_obj={"kind": "case", "invariant": inv, "case": {"id": row["id"], "c": c}, "observed": row, "cfg": cfg} if keep else None,
+                        replay_name="file_%d_%d_%s.json" % (row["id"], k, inv))
+            continue
         v.violation("wire %s inv=%s" % (_case_class(c), inv),
                     "case %d %s: target saw %s (samples %s, err=%r) — rule %s of HttpWire.tla fails; ammo file %r, headers option %s" % (
-                        row["id"], {k: c[k] for k in ("fmt", "ssl", "method", "uri", "host", "body")},
+                        row["id"], {k: c[k] for k in ("fmt", "ssl", "method", "uri", "host", "ehdr", "body")},
                         row["obs"], row["samples"], row["err"], inv, row["file"], c["opts"]),
                     replay_obj={"kind": "case", "invariant": inv, "case": {"id": row["id"], "c": c}, "observed": row, "cfg": cfg} if keep else None,
                     replay_name="case_%d_%s.json" % (row["id"], inv))
@@ -112,37 +131,57 @@ def run(tier, v):
     sfx = "_big" if thorough else ""
     states = trans = 0
     design = []
-    # 1. design level
-    for mod, cfg, w in [("HttpWireMC", "HttpWire_exh%s.cfg" % sfx, 4), ("HttpConnMC", "HttpConn_exh%s.cfg" % sfx, 4)]:
-        r = vlib.tlc(mod, cfg, deadlock=False, workers=w, heap="6g", timeout=2400)
-        vlib.tlc_must_pass(r, cfg)
-        states += r.distinct
-        trans += r.generated
-        design.append("%s: %d states" % (cfg, r.distinct))
-    negs = [("HttpWireMC", "HttpWire_neg_config_wins.cfg"), ("HttpWireMC", "HttpWire_neg_host_target.cfg"),
-            ("HttpWireMC", "HttpWire_neg_opt_always.cfg"), ("HttpConnMC", "HttpConn_neg_noreuse.cfg")]
-    for mod, neg in negs:
-        vlib.tlc_must_fail(vlib.tlc(mod, neg, deadlock=False, workers=2, heap="4g", timeout=900), neg)
-    # 2. M2: the complete case space -> real provider + gun
+    # 1. design level, negative controls and the generator — independent TLC jobs, run concurrently
     d = vlib.scratch()
     cases = os.path.join(d, "cases.ndjson")
-    g = vlib.tlc("HttpWireGen", "HttpWire_gen%s.cfg" % sfx, env={"VERIF_OUT": cases}, workers=1, heap="6g", timeout=1200, deadlock=False)
+    pos = [("HttpWireMC", "HttpWire_exh%s.cfg" % sfx), ("HttpWireMC", "HttpWire_files%s.cfg" % sfx),
+           ("HttpConnMC", "HttpConn_exh%s.cfg" % sfx)]
+    negs = [("HttpWireMC", "HttpWire_neg_config_wins.cfg"), ("HttpWireMC", "HttpWire_neg_host_target.cfg"),
+            ("HttpWireMC", "HttpWire_neg_opt_always.cfg"), ("HttpWireMC", "HttpWire_neg_empty_undefined.cfg"),
+            ("HttpWireMC", "HttpWire_neg_live_map.cfg"),
+            ("HttpConnMC", "HttpConn_neg_noreuse.cfg"), ("HttpConnMC", "HttpConn_neg_idledrop.cfg")]
+    vlib.spec_copy()
+    with concurrent.futures.ThreadPoolExecutor(max_workers=5) as ex:
+        fpos = [ex.submit(vlib.tlc, m, c, deadlock=False, workers=3, heap="6g", timeout=2400) for m, c in pos]
+        fgen = ex.submit(vlib.tlc, "HttpWireGen", "HttpWire_gen%s.cfg" % sfx, env={"VERIF_OUT": cases}, workers=1, heap="6g",
+                         timeout=1200, deadlock=False)
+        fneg = [ex.submit(vlib.tlc, m, c, deadlock=False, workers=1, heap="3g", timeout=900) for m, c in negs]
+        for (m, c), f in zip(pos, fpos):
+            r = f.result()
+            vlib.tlc_must_pass(r, c)
+            states += r.distinct
+            trans += r.generated
+            design.append("%s: %d states" % (c, r.distinct))
+        g = fgen.result()
+        for (m, c), f in zip(negs, fneg):
+            vlib.tlc_must_fail(f.result(), c)
     if g.error or g.violation or not os.path.exists(cases):
         raise vlib.MachineryError("case generation failed: %s\n%s" % (g.kind, g.out[-3000:]))
     gen = vlib.read_ndjson(cases)
+    # 2. M2 (the complete case space -> real provider + gun) and 3. M1 (connection reuse), concurrently
     b = vlib.harness_build()
     obs = os.path.join(d, "obs.ndjson")
-    vlib.run_driver(b, ["httpwire", "-mode", "cases", "-cases", cases, "-out", obs], timeout=1800)
-    rows, tr = validate_cases(v, obs, "TraceHttpWire%s.cfg" % sfx, timeout=3000)
-    if sorted(r["id"] for r in rows) != sorted(c["id"] for c in gen):
-        raise vlib.MachineryError("driver answered %d of %d generated cases" % (len(rows), len(gen)))
-    # 3. M1: connection reuse
     conn = os.path.join(d, "conn.ndjson")
-    vlib.run_driver(b, ["httpwire", "-mode", "conn", "-out", conn, "-n", "4", "-r", "12" if thorough else "5"], timeout=900)
-    crows, runs, ctr = validate_conn(v, conn)
-    nontrivial = len({json.dumps(r["c"], sort_keys=True) for r in rows if r["c"]["ehdr"] or r["c"]["opts"] or r["c"]["host"]})
-    sample_rows = [rows[i] for i in (0, len(rows) // 3, (2 * len(rows)) // 3, len(rows) - 1)]
-    samples = [{"case": r["c"], "ammo_file": r["file"], "target_saw": r["obs"], "sample": r["samples"][:1], "config_shape": r["via"]}
+
+    def conn_part():
+        vlib.run_driver(b, ["httpwire", "-mode", "conn", "-out", conn, "-n", "4", "-r", "12" if thorough else "5"], timeout=900)
+        return validate_conn(v, conn)
+
+    with concurrent.futures.ThreadPoolExecutor(max_workers=2) as ex:
+        fconn = ex.submit(conn_part)
+        vlib.run_driver(b, ["httpwire", "-mode", "cases", "-cases", cases, "-out", obs], timeout=1800)
+        rows, tr = validate_cases(v, obs, "TraceHttpWire%s.cfg" % sfx, timeout=3000)
+        crows, runs, ctr = fconn.result()
+    want = sorted((c["id"], k) for c in gen for k in (range(1, len(c["c"]["entries"]) + 1) if "entries" in c["c"] else [0]))
+    if sorted((r["id"], r["k"]) for r in rows) != want:
+        raise vlib.MachineryError("driver answered %d lines for %d generated cases / file entries" % (len(rows), len(want)))
+    files = [c for c in gen if "entries" in c["c"]]
+    nontrivial = len({json.dumps(r["c"], sort_keys=True) for r in rows
+                      if "entries" in r["c"] or r["c"]["ehdr"] or r["c"]["opts"] or r["c"]["host"]})
+    single = [r for r in rows if "entries" not in r["c"]]
+    sample_rows = [single[i] for i in (0, len(single) // 3, (2 * len(single)) // 3)] + \
+                  [r for r in rows if "entries" in r["c"] and r["c"]["fmt"] == "uri" and len(r["c"]["entries"]) == 3 and r["c"]["entries"][1]["hl"]][:3]
+    samples = [{"case": r["c"], "entry": r["k"], "ammo_file": r["file"], "target_saw": r["obs"], "sample": r["samples"][:1], "config_shape": r["via"]}
                for r in sample_rows]
     samples.append({"conn_run": runs[len(runs) // 2], "events": [e for e in crows if e["run"] == runs[len(runs) // 2]["run"]][:12]})
     cov = {
@@ -151,10 +190,15 @@ def run(tier, v):
         "samples": samples,
         "exhaustive": True,
         "evaluations": len(rows),
+        "single_entry_cases": len(gen) - len(files), "multi_entry_files": len(files), "file_entries_checked": len(rows) - len(single),
+        "conn_runs_with_client_options": sum(1 for r in runs if r.get("opts")),
+        "conn_runs_with_idle_gap": sum(1 for r in runs if r.get("gap_ms")),
         "distinct_nontrivial": nontrivial,
         "rule": "complete product formats x methods(format) x bodies(format) x ssl x compression x uris x ammo-Host x "
                 "subsets(entry headers) x subsets(option headers) of the config's alphabets, generated by TLC (HttpWireGen); "
-                "non-trivial = the entry or the option defines at least one header/Host (distinct abstract cases counted)",
+                "+ present-but-empty / blank entry values against every option list + multi-entry files (2-3 entries, header/Host "
+                "lines redefined between them, with/without headers option, stream/preload, 4 formats; one line per entry); "
+                "non-trivial = the entry or the option defines at least one header/Host, or a file case (distinct abstract cases counted)",
         "case_trace_states": tr.distinct,
         "conn_runs": len(runs), "conn_events": len(crows), "conn_trace_states": ctr.distinct,
         "design_tlc": design,
@@ -165,7 +209,10 @@ def run(tier, v):
         "RFC-valid request URIs; printable bodies; methods GET/POST/PURGE (+DELETE/HEAD/OPTIONS thorough)",
         "extra request headers tolerated at the target: Go transport defaults only (User-Agent if the entry has none, "
         "Content-Length, Transfer-Encoding, Accept-Encoding iff compression enabled)",
-        "connection part: sequential shots per instance, target keeps connections open, loopback; N <= 4 instances",
+        "connection part: sequential shots per instance, target keeps connections open, loopback; N <= 4 instances; runs with the "
+        "documented client options away from their defaults (response-header-timeout 150 ms, idle-conn-timeout 10 min, ...) and "
+        "idle gaps >= 4 x response-header-timeout between shots; an exchange that fails (possible under load with the small "
+        "response-header-timeout) entitles the instance to one more connection",
         "trusted: harness renderer/recorder (harness/cmd/vdrive/httpwire*.go, harness/internal/targets), net/http server parsing",
     ]
 
